@@ -131,7 +131,12 @@ def gen_jit():
     lines = p.stdout.splitlines()
     fn = dict((k, int(v, 16)) for k, v in re.findall(r'(\w+)=([0-9a-f]+)', lines[0]))
     per = {}
+    frame = {}
     for l in lines[1:]:
+        if l.startswith('frame '):
+            _, which, hx = l.split()
+            frame[which] = [int(hx[i:i + 2], 16) for i in range(0, len(hx), 2)]
+            continue
         _, b0, cb, x, y, hx = l.split()
         key = (int(b0, 16), None if cb == '-' else int(cb, 16))
         per.setdefault(key, []).append(((int(x, 16), int(y, 16)), [int(hx[i:i + 2], 16) for i in range(0, len(hx), 2)]))
@@ -144,7 +149,7 @@ def gen_jit():
         if any(len(o[1]) != L for o in outs):
             info[name] = 'template length varies with immediates'
             continue
-        tc = []; te = []
+        tc = []; te = []; free = []
         i = 0
         bad = None
         while i < L:
@@ -165,9 +170,14 @@ def gen_jit():
                 cands = [('b1', lambda pr: pr[0]), ('b2', lambda pr: pr[1]), ('!b1', lambda pr: pr[0] ^ 0xff), ('!b2', lambda pr: pr[1] ^ 0xff)]
                 ok = [n for n, f in cands if all(f(o[0]) == o[1][i] for o in outs) and not (cb is not None and 'b1' in n)]
                 if not ok:
-                    bad = 'unclassified byte %d' % i
-                    break
-                tc.append(ok[0]); te.append(ok[0])
+                    # not an affine function of the immediates: leave it to the real emitter under CBMC (see jit.rs `free`)
+                    free.append(i)
+                    if len(free) > 2:
+                        bad = 'more than two bytes that are not affine in the immediates (first at %d)' % free[0]
+                        break
+                    tc.append('0x00'); te.append('0x00')
+                else:
+                    tc.append(ok[0]); te.append(ok[0])
             i += 1
         if bad:
             info[name] = bad
@@ -182,9 +192,17 @@ def gen_jit():
         unw = max(L, steps) + 10
         b1 = ('0x%02x' % cb) if cb is not None else 'kani::any()'
         out.append('#[kani::proof] #[kani::unwind(%d)] %s\nfn %s() { let b1: u8 = %s; let b2: u8 = kani::any();\n'
-                   '  let t: [u8; %d] = [%s];\n  let te: [u8; %d] = [%s];\n  run([0x%02x, b1, b2], &t, &te, %d, %d, [%s]); }'
-                   % (unw, STUBS, name, b1, L, ', '.join(tc), L, ', '.join(te2), b0, L, steps, ', '.join(table)))
-        info[name] = 'ok len=%d' % L
+                   '  let t: [u8; %d] = [%s];\n  let te: [u8; %d] = [%s];\n  run([0x%02x, b1, b2], &t, &te, %d, %d, [%s], [%s]); }'
+                   % (unw, STUBS, name, b1, L, ', '.join(tc), L, ', '.join(te2), b0, L, steps, ', '.join(table),
+                      ', '.join([str(f) for f in free] + ['usize::MAX'] * (2 - len(free)))))
+        info[name] = 'ok len=%d' % L + (' free=%s' % free if free else '')
+    if all(k in frame for k in ('pre', 'epi', 'bepi')):
+        arr = lambda bs: '[' + ', '.join('0x%02x' % b for b in bs) + ']'
+        out.append('#[kani::proof] #[kani::unwind(130)]\nfn j_frame() {\n  let pre: [u8; %d] = %s;\n  let epi: [u8; %d] = %s;\n  let bepi: [u8; %d] = %s;\n'
+                   '  run_frame(&pre, %d, &epi, %d, &bepi, %d); }'
+                   % (len(frame['pre']), arr(frame['pre']), len(frame['epi']), arr(frame['epi']), len(frame['bepi']), arr(frame['bepi']),
+                      len(frame['pre']), len(frame['epi']), len(frame['bepi'])))
+        info['j_frame'] = 'ok'
     write_gen('jit_gen.rs', '\n'.join(out) + '\n')
     return True, '', info
 
@@ -284,13 +302,16 @@ def run_harnesses(group, feature, names, timeout_s, extra_flags=(), fast=True, m
     cache, cpath = load_cache(group, key)
     todo = [n for n in names if n not in cache or cache[n]['status'] in ('missing',)]
     info = {'engine': 'kani:' + group, 'key': key, 'cached': len(names) - len(todo), 'ran': len(todo), 'wall_s': 0.0, 'cmd': '', 'notes': []}
+    base = ['cargo', 'kani', '--features', feature, '-Z', 'stubbing'] + (FAST if fast else ['-Z', 'unstable-options']) + list(extra_flags) + \
+           ['-j', str(jobs or NPROC), '--output-format=terse', '--harness-timeout', '%ds' % timeout_s, '--exact']
+    info['cmd'] = '(cd build/kani && ' + ' '.join(base) + ' --harness <%d harnesses of %s::harnesses>)' % (len(names), module or group)
+    if len(names) - len(todo):
+        info['notes'].append('%d of %d harness verdicts reused from the cache (same sources, key %s)' % (len(names) - len(todo), len(names), key))
     if todo:
         full = ['%s::harnesses::%s' % (module or group, n) for n in todo]
-        cmd = ['cargo', 'kani', '--features', feature, '-Z', 'stubbing'] + (FAST if fast else ['-Z', 'unstable-options']) + list(extra_flags) + \
-              ['-j', str(jobs or NPROC), '--output-format=terse', '--harness-timeout', '%ds' % timeout_s, '--exact']
+        cmd = list(base)
         for f in full:
             cmd += ['--harness', f]
-        info['cmd'] = ' '.join(cmd[:14]) + ' ... (%d harnesses)' % len(full)
         env = dict(os.environ, CARGO_NET_OFFLINE='true')
         t0 = time.time()
         logp = os.path.join(BUILD, 'kani_%s.log' % group)
@@ -376,9 +397,9 @@ def run_group(prop, group, tier, seed):
 def _attribute(prop, desc):
     """Does a failed check belong to `prop`?  Named checks carry their property; automatic checks of the repository
     code (overflow, bounds, panics) belong to every property of the group."""
-    m = re.match(r'^(C\d\d)[:,]', desc)
+    m = re.match(r'^((?:C\d\d,?)+):', desc)
     if m:
-        return m.group(1) == prop
+        return prop in m.group(1).split(',')
     return True
 
 
@@ -429,6 +450,7 @@ def _run_isa(prop, tier, seed, Ob):
             hn = re.match(r'kani:isa::(\w+)\[', o.name).group(1)
             m = re.match(r'i_(cb_)?([0-9a-f]{2})$', hn)
             if not m or exe is None:
+                o.detail += '\n[no native replay: %s]' % (('replay binary did not build: ' + (err or '')[-400:]) if exe is None else 'not an encoding harness')
                 continue
             vals, err2 = playback('h_isa', 'isa::harnesses::' + hn)
             if vals is None:
@@ -469,7 +491,7 @@ def _run_jit(prop, tier, seed, Ob):
         info0['notes'].append(note); info0['unit'] = 'kani:jit'; info0['status'] = 'template-error'
         return [o], info0
     encs = encodings() if tier == 'thorough' else jit_quick_subset(seed)
-    names = [enc_name('j', b0, cb) for (b0, cb) in encs]
+    names = ['j_frame'] + [enc_name('j', b0, cb) for (b0, cb) in encs]
     if os.environ.get('VERIF_ONLY'):
         names = [n for n in os.environ['VERIF_ONLY'].split(',') if n.startswith('j_')]   # experiments only
     bad = [n for n in names if not tinfo.get(n, '').startswith('ok')]
@@ -484,6 +506,54 @@ def _run_jit(prop, tier, seed, Ob):
         # a model fault (instruction form unknown to the x86 model) or a template mismatch is undecided, never an alarm
         if o.verdict == 'refuted' and ('no model fault' in o.reason or 'derived template' in o.reason):
             o.verdict = 'undecided'
+    # counterexample + native replay: the real translator's machine code on the host CPU vs the real interpreter
+    todo = [o for o in obs if o.verdict == 'refuted'][:int(os.environ.get('VERIF_REPLAYS', '3'))]
+    if todo:
+        exe, err = native_build()
+        for o in todo:
+            hn = re.match(r'kani:jit::(\w+)\[', o.name).group(1)
+            m = re.match(r'j_(cb_)?([0-9a-f]{2})$', hn)
+            if hn == 'j_frame' and exe is not None:
+                vals, err2 = playback('h_jit', 'jit::harnesses::j_frame', timeout_s=600)
+                if vals is None:
+                    o.detail += '\n[playback: %s]' % err2
+                    continue
+                args = [exe, 'replay-frame'] + vals[:7]
+                p = subprocess.run(args, capture_output=True, text=True)
+                try:
+                    rep = json.loads(p.stdout.strip().splitlines()[-1])
+                except Exception:
+                    rep = {'error': 'replay output not understood (exit %s)' % p.returncode, 'stderr': p.stderr[-500:]}
+                rep['inputs_in_kani_any_order'] = vals[:7]
+                rep['command'] = 'build/kani/target/debug/gbverif ' + ' '.join(args[1:])
+                rep['confirmed_on_real_code'] = bool([c for c in rep.get('failed_checks', []) if _attribute(prop, c)])
+                if rep['confirmed_on_real_code']:
+                    o.replay = rep
+                else:
+                    o.detail += '\n[native replay did not reproduce: %s]' % json.dumps(rep)[:700]
+                continue
+            if not m or exe is None:
+                o.detail += '\n[no native replay: %s]' % (('replay binary did not build: ' + (err or '')[-400:]) if exe is None else 'not an encoding harness')
+                continue
+            vals, err2 = playback('h_jit', 'jit::harnesses::' + hn, timeout_s=1500)
+            if vals is None:
+                o.detail += '\n[playback: %s]' % err2
+                continue
+            b0, cb = (0xcb, int(m.group(2), 16)) if m.group(1) else (int(m.group(2), 16), None)
+            args = [exe, 'replay-jit', '%02x' % b0, ('%02x' % cb) if cb is not None else '-'] + vals[:16]
+            p = subprocess.run(args, capture_output=True, text=True)
+            try:
+                rep = json.loads(p.stdout.strip().splitlines()[-1])
+            except Exception:
+                rep = {'error': 'replay output not understood (exit %s)' % p.returncode, 'stdout': p.stdout[-500:], 'stderr': p.stderr[-500:]}
+            rep['inputs_in_kani_any_order'] = vals[:16]
+            rep['command'] = 'build/kani/target/debug/gbverif ' + ' '.join(args[1:])
+            confirmed = [c for c in rep.get('failed_checks', []) if _attribute(prop, c)]
+            rep['confirmed_on_real_code'] = bool(confirmed)
+            if rep['confirmed_on_real_code']:
+                o.replay = rep
+            else:
+                o.detail += '\n[native replay (real machine code on the host CPU) did not reproduce: %s]' % json.dumps(rep)[:900]
     info['assumptions'] = ['x86-64 semantics kani/src/x86.rs for the instruction forms the emitter uses (trusted model; undefined flags and SysV caller-saved registers havocked)',
                            'reference = the real interpreter (itself pinned to the SM83 spec by C05/C06)',
                            'helper calls obey the bus contract (C10); stack alignment at helper calls not modelled',
